@@ -120,3 +120,11 @@ def constructor_call(O):
 def handle_io_protocol(O):
     from . import C02
     C02.handle_io(dri.WithRep(O, rep()))
+
+
+@obligation("C13/first-answer-is-this-runs", desc="TestCase has no interior mutability and the crate keeps no mutable global "
+            "state, so the layout a run's answers are checked against is the first answer of that run's own driver "
+            "(type-level facts read from the MIR and the struct definition)")
+def first_answer_is_this_runs(O):
+    from . import C15
+    C15.no_shared_state_core(O, rep())
